@@ -28,7 +28,8 @@ failure → TCP fallback), and whenever cache entries are evicted: every message
 carries that client's transaction ID and that client's question (up to the case of the name). -/
 theorem reply_carries_client_id_and_question (cs : List Client) (as : List Act) (i : Nat) (r : Reply)
     (h : (i, Outcome.wrote r) ∈ (run codeCfg (init cs) as).outs) :
-    ∃ c, cs[i]? = some c ∧ r.id = c.id ∧ ∃ rq, r.q = some rq ∧ rq.name = c.q.name ∧ rq.qtype = c.q.qtype := by
+    ∃ c, cs[i]? = some c ∧ r.id = c.id ∧
+      ∃ rq, r.q = some rq ∧ rq.name = c.q.name ∧ rq.qtype = c.q.qtype ∧ rq.qclass = c.q.qclass := by
   have hinv := inv_run codeCfg rfl as _ (inv_init cs)
   obtain ⟨c, hc, hg⟩ := hinv.outsGood i _ h
   obtain ⟨hid, rq, hrq, hs⟩ := hg r rfl
@@ -44,14 +45,16 @@ theorem reply_carries_client_id_and_question (cs : List Client) (as : List Act) 
         cases a <;> simp only [step] <;> (repeat' split) <;> rfl
     exact this as _
   rw [hcl] at hc
-  exact ⟨c, hc, hid, rq, hrq, (same_iff.mp hs).1, (same_iff.mp hs).2⟩
+  have hi := same_iff.mp hs
+  simp only [Question.ident, Prod.mk.injEq] at hi
+  exact ⟨c, hc, hid, rq, hrq, hi.1, hi.2.1, hi.2.2⟩
 
 /-- the hypothesis is satisfiable: two clients with the SAME transaction ID and differently-cased
 spellings of one name, the second coalesced onto the first's resolution; both get a reply. -/
 example :
-    let cs : List Client := [⟨7, ⟨1, 0, 1⟩, 0, .forward⟩, ⟨7, ⟨1, 3, 1⟩, 0, .forward⟩]
+    let cs : List Client := [⟨7, ⟨1, 0, 1, 1⟩, 0, .forward⟩, ⟨7, ⟨1, 3, 1, 1⟩, 0, .forward⟩]
     let s := run codeCfg (init cs)
-      [.arrive 0, .join 0, .arrive 1, .join 1, .resolve 0 .udp (.msg ⟨99, some ⟨1, 0, 1⟩, true, 0, false, 5, false⟩) .fail, .wake 1, .wake 0]
+      [.arrive 0, .join 0, .arrive 1, .join 1, .resolve 0 .udp (.msg ⟨99, some ⟨1, 0, 1, 1⟩, true, 0, false, 5, false⟩) .fail, .wake 1, .wake 0]
     s.outs.length = 2 ∧ s.calls.length = 1 := by decide
 
 /-- The reply a caller of `Handle_` builds when it returned an error (SERVFAIL / TC=1) is made from
@@ -63,18 +66,21 @@ theorem error_reply_carries_client_id_and_question (c : Client) (e : ErrKind) :
 /-- **No foreign answer is cached.** Every cache entry is stored under the key of the question its
 packed bytes answer (name and type), in every reachable state. -/
 theorem no_foreign_answer_cached (cs : List Client) (as : List Act) (k : Key) (e : Entry)
-    (h : (k, e) ∈ (run codeCfg (init cs) as).cache) : e.q.name = k.name ∧ e.q.qtype = k.qtype :=
-  (inv_run codeCfg rfl as _ (inv_init cs)).cacheSound k e h
+    (h : (k, e) ∈ (run codeCfg (init cs) as).cache) :
+    e.q.name = k.name ∧ e.q.qtype = k.qtype ∧ e.q.qclass = k.qclass ∧ k.qclass = classIN := by
+  have := (inv_run codeCfg rfl as _ (inv_init cs)).cacheSound k e h
+  simp only [Question.ident, Key.ident, Prod.mk.injEq] at this
+  exact ⟨this.1.1, this.1.2.1, this.1.2.2, this.2⟩
 
 /-- … and this is what the question check of fix b94e062 buys: without it a reachable state caches,
 and serves to a second client, the answer to another question (DESIGN §7 item 7). -/
 theorem question_unchecked_witness :
-    let cs : List Client := [⟨100, ⟨1, 0, 1⟩, 0, .forward⟩, ⟨101, ⟨1, 0, 1⟩, 0, .forward⟩]
+    let cs : List Client := [⟨100, ⟨1, 0, 1, 1⟩, 0, .forward⟩, ⟨101, ⟨1, 0, 1, 1⟩, 0, .forward⟩]
     let s := run { checkQuestion := false } (init cs)
-      [.arrive 0, .join 0, .resolve 0 .udp (.msg ⟨100, some ⟨2, 0, 1⟩, true, 0, false, 6, false⟩) .fail, .wake 0, .arrive 1]
-    (∃ e, (Key.mk 1 1 0, e) ∈ s.cache ∧ e.q.name = 2) ∧
-    (∃ r, (1, Outcome.wrote r) ∈ s.outs ∧ r.q = some ⟨2, 0, 1⟩) := by
-  refine ⟨⟨⟨⟨2, 0, 1⟩, 6⟩, by decide, rfl⟩, ⟨⟨101, some ⟨2, 0, 1⟩, 0, false, 6, .cache⟩, by decide, rfl⟩⟩
+      [.arrive 0, .join 0, .resolve 0 .udp (.msg ⟨100, some ⟨2, 0, 1, 1⟩, true, 0, false, 6, false⟩) .fail, .wake 0, .arrive 1]
+    (∃ e, (Key.mk 1 1 1 0, e) ∈ s.cache ∧ e.q.name = 2) ∧
+    (∃ r, (1, Outcome.wrote r) ∈ s.outs ∧ r.q = some ⟨2, 0, 1, 1⟩) := by
+  refine ⟨⟨⟨⟨2, 0, 1, 1⟩, 6⟩, by decide, rfl⟩, ⟨⟨101, some ⟨2, 0, 1, 1⟩, 0, false, 6, .cache⟩, by decide, rfl⟩⟩
 
 /-- **Singleflight: one resolution.** In every reachable state (a) upstream resolutions and flights
 correspond: every `sf.Do` leader starts at most one (none when its own re-check finds the cache
@@ -102,16 +108,25 @@ theorem singleflight_one_resolution (cs : List Client) (as : List Act) :
 /-- k concurrent identical questions: one upstream resolution (non-vacuity of the above, with k=3
 clients of which two collide on the ID). -/
 example :
-    let cs : List Client := [⟨7, ⟨1, 0, 1⟩, 0, .forward⟩, ⟨7, ⟨1, 1, 1⟩, 0, .forward⟩, ⟨9, ⟨1, 2, 1⟩, 0, .forward⟩]
+    let cs : List Client := [⟨7, ⟨1, 0, 1, 1⟩, 0, .forward⟩, ⟨7, ⟨1, 1, 1, 1⟩, 0, .forward⟩, ⟨9, ⟨1, 2, 1, 1⟩, 0, .forward⟩]
     let s := run codeCfg (init cs) [.arrive 0, .arrive 1, .join 0, .arrive 2, .join 2, .join 1]
     s.calls.length = 1 ∧ s.pcs = [.leading 0, .waiting 0, .waiting 0] := by decide
+
+/-- class is part of the question (fix 4150de7): a `CH` and an `IN` client for the same name and type are
+not coalesced, the `CH` answer is not cached, the `IN` client is not served from it. -/
+example :
+    let cs : List Client := [⟨7, ⟨1, 0, 16, 3⟩, 0, .forward⟩, ⟨8, ⟨1, 0, 16, 1⟩, 0, .forward⟩]
+    let s := run codeCfg (init cs)
+      [.arrive 0, .join 0, .arrive 1, .join 1,
+       .resolve 0 .udp (.msg ⟨7, some ⟨1, 0, 16, 3⟩, true, 0, false, 5, false⟩) .fail, .wake 0]
+    s.calls.length = 2 ∧ s.cache = [] ∧ s.pcs = [.done, .leading 1] := by decide
 
 /-- the leader's re-check: the cache is filled between a client's first lookup and its `sf.Do`; it
 becomes the leader of a flight that needs no upstream exchange. -/
 example :
-    let cs : List Client := [⟨7, ⟨1, 0, 1⟩, 0, .forward⟩, ⟨8, ⟨1, 2, 1⟩, 0, .forward⟩]
+    let cs : List Client := [⟨7, ⟨1, 0, 1, 1⟩, 0, .forward⟩, ⟨8, ⟨1, 2, 1, 1⟩, 0, .forward⟩]
     let s := run codeCfg (init cs)
-      [.arrive 0, .arrive 1, .join 0, .resolve 0 .udp (.msg ⟨7, some ⟨1, 0, 1⟩, true, 0, false, 5, false⟩) .fail, .join 1, .wake 1, .wake 0]
+      [.arrive 0, .arrive 1, .join 0, .resolve 0 .udp (.msg ⟨7, some ⟨1, 0, 1, 1⟩, true, 0, false, 5, false⟩) .fail, .join 1, .wake 1, .wake 0]
     s.calls.length = 1 ∧ s.flights.length = 2 ∧ s.outs.length = 2 := by decide
 
 /-- **… whose result reaches every waiter, once.** A client blocked in `sf.Do` on a finished flight
